@@ -73,7 +73,12 @@ Pool == <<
   \* 30, 31: two $removeparam rules with one pattern, mask and bucket (initial list): the removeparam list is never
   \* optimised - fused, only the first rule's parameter would still be removed
   [W("/p") EXCEPT !.mkind = "removeparam", !.mval = "q"],
-  [W("/p") EXCEPT !.mkind = "removeparam", !.mval = "r"]
+  [W("/p") EXCEPT !.mkind = "removeparam", !.mval = "r"],
+  \* 32 (addable, InitSet "res"): a redirect EXCEPTION added one at a time must cancel the redirects to its resource
+  \* (rule 18 redirects /eee to r1 with priority 1, rule 19 to al1)
+  [W("/eee") EXCEPT !.exc = TRUE, !.mkind = "redirect-rule", !.mval = "r1"],
+  \* 33 (addable): a TAGGED csp rule added one at a time is a csp rule (not a blocking rule) while its tag is on
+  [W("x.com^") EXCEPT !.left = "dpipe", !.mkind = "csp", !.mval = "d5", !.tag = "t1"]
 >>
 \* resources (C06: answers are a function of the LOADED resources): r1 has the alias al1, a later resource
 \* NAMED al1 collides with it - whichever is added first wins; p1 needs a permission and is never served
@@ -90,7 +95,7 @@ UseChoices == {<<>>, <<1, 2>>, <<3, 1>>, <<1, 3, 4>>, <<2>>, <<1, 5>>, <<5, 1>>}
 PoolX == Pool
 InitRules == IF InitSet = "full" THEN <<1, 2, 3, 4, 5, 6, 7, 8, 10, 11, 23, 24, 26, 27, 30, 31>>
              ELSE IF InitSet = "res" THEN <<15, 16, 17, 18, 19, 13, 3>> ELSE <<3, 5, 7, 13>>
-Addable == IF Mode = "blocker" THEN {9, 12, 14, 20, 21, 22, 25, 28, 29} ELSE {}
+Addable == IF Mode # "blocker" THEN {} ELSE IF InitSet = "res" THEN {20, 21, 29, 32} ELSE {9, 12, 14, 20, 21, 22, 25, 28, 29, 33}
 
 MkReq(path, alias) ==
   LET pre == Chars("https://") h == Chars("x.com") IN
